@@ -119,7 +119,7 @@ FAMILIES = {
               # several concurrent expect() calls on one bus (same and different keys, different deadlines)
               ('expects', dict(), 0.15),
               # ... while ordinary handlers of the events fail: time out, raise, let a CancelledError escape
-              ('core', dict(p_expect=0.3, ntasks=(1, 3), tasklen=(2, 7), p_timeout=0.5, p_raise=0.2, proglen=(1, 5)), 0.2)],
+              ('core', dict(p_expect=0.5, ntasks=(2, 3), tasklen=(2, 7), p_timeout=0.7, p_raise=0.2, proglen=(1, 5), nb=(1, 2)), 0.2)],
         facets=['expect', 'registry', 'handlers', 'lifecycle', 'activation', 'harness', 'other', 'timeout', 'results'],
         rule='event streams x include/exclude/raising predicates x timeouts x 1-3 concurrent expect() calls; non-trivial: an expect() is pending while an event of its type is processed'),
     # not a property: scenario family used by tools/mine_witness.py for the parallel-bus findings
